@@ -1,6 +1,7 @@
 import LentilVerif.Model.Propagate
 import LentilVerif.Gen.FftScratch
 import LentilVerif.Gen.Util
+import LentilVerif.Gen.PlaneType
 /-! Executable model of `lentil.propagate.propagate_fft` (`_fft_shape`, shape/scratch guards, scratch zero-and-insert,
 `lentil.util.pad`, `_fft2`), generic in the value type. `np.fft.fft2(norm='ortho')`, `fftshift`, `ifftshift` are modelled
 by their documented contracts (unitary DFT with origin at index 0; index rotations by `±floor(n/2)`). Mathlib-free. -/
@@ -140,6 +141,21 @@ def propagateFft (one : K) (fs : List (Fld K)) (hasTilt : Bool) (W0 W1 : Int) (d
   if shapeTooBig (R := R) shape S os then .valueError else
   if scratchTooSmall scratch S then .valueError else
   .ok lam S.1 S.2 (fftShapeOut shape S os) { arr := fft2c (R := R) (fftGrid one fs W0 W1 S.1 S.2 scratch), o0 := 0, o1 := 0 }
+
+/-- outcome of the call `propagate_fft(wavefront, …)` on a wavefront of any plane type: refused by one of the two entry guards with the
+exception the generated guard table names, or the plane type of the result and the outcome of the body -/
+inductive FftCallOut (K R : Type) where
+  | refusedBy (e : Gen.Err) : FftCallOut K R
+  | done (ptype : Gen.WType) (o : FftOut K R) : FftCallOut K R
+
+/-- `propagate_fft` as called on a wavefront whose plane type is `w` (`none` = a wavefront that has met no pupil/image plane): the two
+entry guards in source order as regenerated in `Gen.codePropagateFft` (`_has_tilt` -> NotImplementedError, then
+`_propagate_ptype` -> TypeError / flipped type), then the body `propagateFft` -/
+def propagateFftCall (w : Gen.WType) (one : K) (fs : List (Fld K)) (hasTilt : Bool) (W0 W1 : Int) (dx0 dx1 du0 du1 wl z : R) (os : Int)
+    (shape : Option (Int × Int)) (scratch : Option (Arr K)) : FftCallOut K R :=
+  match Gen.codePropagateFft hasTilt w with
+  | .refused e => .refusedBy e
+  | .ok t => .done t (propagateFft one fs hasTilt W0 W1 dx0 dx1 du0 du1 wl z os shape scratch)
 end prop
 
 end Lentil
